@@ -91,6 +91,8 @@ def comp_block(c):
         s.append("    expDenom %d" % p["ed"])
         if p.get("tol", 0.0) > 0:
             s.append("    tolerance " + g17(p["tol"]))
+            if p.get("plfreq"):
+                s.append("    pairListFrequency %d" % p["plfreq"])
         if p.get("center"):
             s.append("    group2CenterOnly on")
     if comp == "rmsd" and p.get("reffile"):
